@@ -15,21 +15,27 @@ import ms
 from common import qlit
 
 MANIFEST = dict(
-    text='Theorems (props/C12.v) about a hand-written Gallina model of HaighDiagram.transform / _SegmentTransformer (segment ordering by '
-         'distance from the target in fake-mean-stress space, closed test interval, the +-inf flip, transformed_amplitude incl. R_goal = -inf '
-         'and 1.0 -> -inf), the FKM-Goodman and five-segment diagram constructors and _rebin_results, over Q with an extended rational type '
-         'for R: a * H(R) is invariant under every step of the segment walk for any diagram and any schedule (segment_walk_invariant); for the '
-         'FKM-Goodman diagram the algorithm equals the independently written closed form for every cycle (a > 0, any mean), every 0 <= M2, '
-         '0 <= M < 1 and every target incl. R = -inf and R > 1 (fkm_goodman_closed_form), hence path independence, idempotence, fixed point, '
-         'strict monotonicity in the amplitude and continuity across the segment borders; for the five-segment diagram the same closed form '
-         '(potential H_five) with the restriction found by this check (target R = -inf with M4 <> 0 and a cycle at R > 1 is refuted: '
-         'five_segment_neg_inf_refuted); re-binning of the matrix interface conserves the number of cycles (matrix_conserves_cycles). '
-         'The model is tied to the code by a vm_compute correspondence check of amplitude and mean through the plain functions, the '
-         'DataFrame accessor (several index layouts, one diagram per element) and the histogram accessor.',
+    text='Theorems (props/C12.v, 14, all closed under the global context) about a hand-written Gallina model of HaighDiagram.transform / '
+         '_SegmentTransformer (segment ordering by distance from the target in fake-mean-stress space with stable ties, closed test interval, '
+         'the +-inf flip, transformed_amplitude incl. R_goal = -inf and 1.0 -> -inf), the FKM-Goodman and five-segment diagram constructors and '
+         '_rebin_results, over Q with an extended rational type for R. segment_walk_invariant: a * H(R) is invariant under every step of the '
+         'segment walk for any diagram and any schedule once H is a multiple of the iso-damage weight on every segment. FKM-Goodman (every '
+         '0 <= M2, 0 <= M < 1, every cycle a > 0 / any mean, every target incl. R = -inf and R > 1): the algorithm equals the independently '
+         'written closed form (fkm_goodman_closed_form), hence path independence, idempotence, fixed point, strict monotonicity in the amplitude, '
+         'Lipschitz continuity (constant 1) of the equivalent amplitude over all mean stresses (i.e. across the segment borders). Five-segment '
+         'diagram (0 < R12 < R23 < 1, slopes in [0, 1)): closed form a * H_five(R) / H_five(R_goal), path independence, idempotence, fixed point for '
+         'every cycle and target EXCEPT the class found by this check (code as it is: target R = -inf and a cycle at R > 1 is not transformed; '
+         'five_segment_neg_inf_refuted gives the witness); the same theorems hold without exception for the repaired code (flag fx = true = '
+         'fixes/C12-five-segment-target-neg-inf.patch). matrix_conserves_cycles: re-binning puts every transformed range into exactly one result '
+         'interval. The model is tied to the code by a vm_compute correspondence check of amplitude and mean through the plain functions, the '
+         'DataFrame accessor (several index layouts, one diagram per element) and the histogram accessor, and of the re-binned counts.',
     note=common.TB_NOTE + 'all C12 theorems are closed under the global context (no axioms). Model is hand-written: the correspondence harness '
          '(generators, Coq literals, exact Fraction oracle) is trusted; float rounding is outside the theorems (comparison tolerance 1e-9 '
-         'relative to the magnitude of the cycle); pandas/numpy internals (alignment, stable sort of <= 5 distances, IntervalIndex) are covered '
-         'by the correspondence only; R_goal = 1 and R_goal = +inf are rejected by the model (the code raises / returns garbage there).',
+         'relative to the magnitude of the cycle); pandas/numpy internals (alignment, stable sort of <= 5 distances, IntervalIndex, linspace/ceil in '
+         'the re-binning: the interval edges are taken from the implementation and checked against the hypotheses of matrix_conserves_cycles) are '
+         'covered by the correspondence only; R_goal = 1 and R_goal = +inf are rejected by the model (the code raises / returns garbage there); '
+         'five-segment slopes outside [0, 1) (the test-suite uses M3 = 1, M4 = -2) are covered by correspondence and the exact oracle, not by the theorems; '
+         'monotonicity/continuity are proved for FKM-Goodman only (five-segment: oracle relations on the implementation).',
     technique='Coq proof (invariant + case analysis, lra/nra/field over Q) over hand-written Gallina model + vm_compute correspondence',
     design='6/C12')
 
